@@ -180,6 +180,7 @@ def run(tier: str) -> int:
             ck.py_violation(a, ra[:600], f"render() of a list with metadata nodes differs from render() of the same list without them: {rb[:300]}",
                             py=f"with metadata: {a}\nwithout: {b}")
     ck.tagc("render_full_list(meta vs stripped)", len(pairs))
+    ck.extra_cov["render_mode_cases"] = __import__("modeoracle").oracle(ck, "C07 (dependencies leave no trace in the rendered HTML string)")
     return ck.finish()
 
 
